@@ -225,6 +225,18 @@ def r20_names(ctx):
         ctx.require(val == names, 'R20.5', f'{meth}() with one entry per direction', ctx.where(fn),
                     f'devices listed once per direction {[(d["name"], "in" if d["is_input"] else "out") for d in devices2]}: gives {val if val is not None else outs}, '
                     f'expected {names}', construct=f'{fn.qname}::listing')
+    # the direction flags are truth values: PortMidi and pygame report them as the integers 1 and 0
+    devices3 = [{'name': d['name'], 'is_input': int(d['is_input']), 'is_output': int(d['is_output'])} for d in devices]
+    for meth, names in want.items():
+        ai = make_interp(ctx, {}, True, True, devices3)
+        o, fn = ctx.p.lookup_method(cls0, meth)
+        outs = ai.explore(lambda: pm.call(ai, ctx, ai.apply(ClassRef(cls0), [], {'name': 'mod'}, None), meth, [], {}))
+        val = outs[0].value if len(outs) == 1 and outs[0].kind == 'return' else None
+        if isinstance(val, AList):
+            val = list(val.items)
+        ctx.require(val == names, 'R20.5', f'{meth}() with the direction flags given as 1 and 0', ctx.where(fn),
+                    f'devices {[(d["name"], d["is_input"], d["is_output"]) for d in devices3]}: gives {val if val is not None else outs}, expected {names}',
+                    construct=f'{fn.qname}::listing')
     # a module that has a device list and fails to produce it: the failure is the answer, not an empty list
     for exc in ('AttributeError', 'OSError', 'KeyError'):
         for meth in want:
